@@ -22,6 +22,7 @@ t0 = time.time()
 HARNESS = {
     '/repo/internal/db/zz_c05_fault_test.go': f'{V}/harness/db/zz_c05_fault_test.go',
     '/repo/internal/db/zz_merge_harness_test.go': f'{V}/harness/db/zz_merge_harness_test.go',
+    '/repo/internal/db/zz_c03_timetravel_test.go': f'{V}/harness/db/zz_c03_timetravel_test.go',
 }
 
 def overlay():
@@ -104,6 +105,27 @@ if prop in ('C01', 'C02', 'C04'):
         json.dump({'property': prop, 'obligation': 'bounded stand-in for the merge walk', 'history': h, 'problems': probs,
                    'replay_cmd': f"VERIF_BOUND_K=3 VERIF_HISTORIES='{h}' go test -overlay <harness overlay> -vet=off -run '^TestGovcHistory$' ./internal/db"}, open(rp, 'w'), indent=1)
         lines.append(f'VIOLATION property={prop} replay={rp}')
+
+if prop == 'C03':
+    L = '4' if tier != 'thorough' else '7'
+    summary['function'] = '(*fetcher.VersionedFetcher).seekTo/seekNext/merge through DB.ExecRequest (go test -overlay on a real DB)'
+    p, res = gotest('^TestGovcC03TimeTravel$', {'VERIF_BOUND_L': L}, 900)
+    if res is None:
+        rp = f'{V}/replays/{prop}/bounded-harness.json'
+        os.makedirs(os.path.dirname(rp), exist_ok=True)
+        json.dump({'property': prop, 'obligation': 'bounded harness', 'reason': 'the time-travel harness no longer builds or runs against the current tree', 'output': (p.stdout + p.stderr)[-4000:]}, open(rp, 'w'), indent=1)
+        print(f'VIOLATION property={prop} replay={rp} no-failing-input-found')
+        sys.exit(1)
+    probs = res.get('problems') or []
+    summary.update({'bound': f'one document (register + counter), every linear history of set-name / increment of length <= {L}; at every commit: time-travel read == ordinary read recorded right after that commit; heads and current state unchanged by the reads',
+                    'cases': res['cases'], 'distinct_nontrivial': res['cases'], 'exhaustive': True, 'violating_histories': len({q['history'] for q in probs})})
+    if probs:
+        rp = f'{V}/replays/{prop}/bounded-history-1.json'
+        os.makedirs(os.path.dirname(rp), exist_ok=True)
+        json.dump({'property': prop, 'obligation': 'bounded stand-in for the versioned fetcher', 'problems': probs[:10],
+                   'replay_cmd': "go test -overlay <harness overlay> -vet=off -run '^TestGovcC03TimeTravel$' ./internal/db"}, open(rp, 'w'), indent=1)
+        lines.append(f'VIOLATION property={prop} replay={rp}')
+        violations.append(('time travel', probs[:3]))
 
 summary['wall_s'] = round(time.time() - t0, 1)
 json.dump(summary, open(f'{work}/{prop}.json', 'w'), indent=1)
